@@ -4,11 +4,12 @@
 Round-trip oracle over generated construction specs (every registered class) and over objects obtained by
 parsing accepted inputs; applied recursively to nested values and through the variant wrappers.
 """
+import random
 import time
 
 from vf.core import hyp, lib, pool
 from vf.core.stats import Finding, Stats, digest
-from vf.gen import registry, seeds
+from vf.gen import edits, registry, seeds
 from vf.gen import spec as specs
 
 ID = 'C01'
@@ -211,8 +212,51 @@ def judge(case):
     return ('finding' if findings else status), findings, data
 
 
+def judge_edited(case):
+    """The same clauses for an object reached by editing in place: a second instance is built from the spec, byte-string
+    / text fields of items that sit inside its vectors are changed (vf/gen/edits.py), and the edited object must
+    compose to exactly the bytes of an equal object built from scratch and parse back to it.
+    -> (status, findings, edits made)"""
+    if 'spec' not in case:
+        return 'not-a-spec', [], []
+    built = lib.call(specs.build, case['spec'])
+    if not built.ok:
+        return 'constructor-rejects', [], []
+    obj = built.value
+    untouched = lib.call(edits.rebuild, obj)
+    if not untouched.ok or lib.same(untouched.value, obj) is not None:
+        return 'not-rebuildable', [], []
+    first, second = lib.call(obj.compose), lib.call(untouched.value.compose)
+    if not first.ok or not second.ok or bytes(first.value) != bytes(second.value):
+        return 'not-rebuildable', [], []
+    done = edits.nested_edits(obj, random.Random(digest(case['spec'])))
+    if not done:
+        return 'no-edit-site', [], []
+    fresh = lib.call(edits.rebuild, obj)
+    if not fresh.ok:
+        return 'edit-out-of-domain', [], done          # the constructors refuse these field values
+    status, findings, reference = round_trip(fresh.value, _is_huge(case['spec']))
+    if status != 'ok' or reference is None:
+        return 'fresh-twin-' + status, [], done         # a matter of the plain clauses (reported there)
+    locus = done[0].split('[')[0]
+    composed = lib.call(obj.compose)
+    detail = {'edits': done, 'class': _short(type(obj))}
+    if not composed.ok:
+        return 'finding', [Finding('edited-compose-raises:%s/%s' % (type(composed.exc).__name__, locus),
+                                   dict(detail, error=repr(composed.exc)[:200]))], done
+    data = bytes(composed.value)
+    if data != reference:
+        return 'finding', [Finding('edited-compose-differs/%s' % locus, dict(
+            detail, composed=data.hex()[:160], fresh_twin=reference.hex()[:160]))], done
+    parsed = lib.call(type(obj).parse_exact_size, data + terminator_of(type(obj))) if not terminator_of(type(obj)) else None
+    if parsed is not None and (not parsed.ok or lib.same(parsed.value, fresh.value) is not None):
+        return 'finding', [Finding('edited-reparse-differs/%s' % locus, dict(
+            detail, outcome=parsed.signature() if not parsed.ok else lib.same(parsed.value, fresh.value)[:200]))], done
+    return 'ok', [], done
+
+
 def check_case(case):
-    return judge(case)[1]
+    return judge(case)[1] + judge_edited(case)[1]
 
 
 # ---------------------------------------------------------------------------------------------------
@@ -225,6 +269,12 @@ def _spec_case_fn(ref):
         stats.evaluations += 1
         status, findings, data = judge(case)
         stats.labels['spec:' + status.split(':')[0]] += 1
+        if not status.startswith('constructor-rejects'):
+            edited_status, edited_findings, done = judge_edited(case)
+            stats.labels['edited:' + edited_status] += 1
+            findings = findings + edited_findings
+            if done and data is not None:
+                stats.nontriv(ref.encode() + b'|edited|' + data + repr(done).encode())
         if status.startswith('constructor-rejects'):
             stats.add('rejected:' + short)
         else:
